@@ -412,7 +412,11 @@ func TestC01StreamRoundTrip(t *testing.T) {
 			if rapid.Bool().Draw(t, "long") {
 				f.Payload = gen.Bytes(t, rapid.IntRange(200, 255).Draw(t, "plen_long"), "payload_long")
 			}
-			if key != nil {
+			if key != nil && i > 0 && rapid.IntRange(0, 4).Draw(t, "same_frame_again") == 0 {
+				// the frame just written goes out once more, byte for byte (same timestamp, same signature): a
+				// reader holding the key reads every copy back
+				f = frames[i-1]
+			} else if key != nil {
 				if i > 0 {
 					ts += uint64(rapid.IntRange(0, 2500000).Draw(t, "ts_step"))
 				}
